@@ -105,6 +105,12 @@ func (this *partition) loadRaft(nodeIds []uint64) error {
 	this.raftMu.Lock()
 	defer this.raftMu.Unlock()
 
+	if this.raft != nil {
+		// Already loaded: a replica-set change and the allocator's trailing
+		// handling of the partition's creation may both ask for it
+		return nil
+	}
+
 	var err error
 	this.raft, err = raft.NewRaftGroup(this.id, nodeIds, this.wal, this.raftTransport)
 	if err != nil {
